@@ -99,6 +99,39 @@ class OneFrame(S.SeqRule):
         return None
 
 
+class FinishFlushed(OneFrame):
+    """R10: a framing transport's finish op reports success only with the send
+    buffer known empty (or on a socket that has no send buffer: not a connection)"""
+
+    def __init__(self, prog, root, rule):
+        super().__init__(prog, root, rule)
+        self.nzero = 0
+        self.bad = False
+
+    def on_branch(self, fn, st, blk, cond, label):
+        r = super().on_branch(fn, st, blk, cond, label)
+        if r is not None:
+            return r
+        if label in ("T", "F"):
+            l, op, rr = C.cond_atom(fn, cond, label == "T")
+            if not isinstance(rr, tuple) and fn.fields_of(l)[-1:] == ("type",) and fn.sn(rr).get("name") == "xcm_socket_type_conn" and op == "!=":
+                return True
+        return None
+
+    def on_exit(self, fn, st, ret_nid, ret_cls, top):
+        if not top or ret_cls == S.NEG:
+            return          # an unknown result (a delegated call) may be a success
+        self.nzero += 1
+        if st.user:
+            self.rule.ok("%s: success only with the outbound frame completely handed to the lower layer" % self.root.name, "typestate on the path")
+        elif not self.bad:
+            self.bad = True
+            self.rule.violation("%s:finish-with-pending-frame" % self.root.name,
+                                "finish reports success on a path where the send buffer may still hold (part of) an accepted message: "
+                                "xcm_finish()/blocking xcm_send()/xcm_set_blocking() return while the message is unsent, and a close loses it",
+                                loc=fn.loc(ret_nid) if ret_nid is not None else fn.file)
+
+
 class DeliverReset(S.SeqRule):
     """user: (copied, reset)"""
 
@@ -305,6 +338,19 @@ def run(ctx):
         if rr.nset < 1:
             raise Broken("C01.R1: no mbuf_set reached in %s" % f.name)
     r1.floor(2, "framing send ops")
+
+    # ------------------------------------------------------------------ R10
+    r10 = ctx.rule("C01.R10", "finish of a framing transport succeeds only when no accepted message is left in the send buffer")
+    for t in TP.ops_tables(P):
+        fin, snd = t.slots.get("finish"), t.slots.get("send")
+        if fin is None or snd not in framing_send:
+            continue
+        r10.instance(fin.qname)
+        rr = FinishFlushed(P, fin, r10)
+        S.run(rr, fin)
+        if rr.nzero < 1:
+            raise Broken("C01.R10: no success exit found in %s" % fin.name)
+    r10.floor(2, "finish ops of framing transports")
 
     # ------------------------------------------------------------------ R2
     r2 = ctx.rule("C01.R2", "resume arithmetic: send pointer/length recomputed from the progress counter after every update")
